@@ -11,7 +11,7 @@ from vf.oracles import jaccard as J
 from vf.oracles.fasta import write_fasta
 
 FASTA_EXTS = ('.fasta', '.fna', '.ffn', '.faa', '.frn', '.fa')
-NAME_STEMS = ['plain', 'with space', 'comma,name', 'dq"uote', "sq'uote", 'ünï', '日本', 'semi;colon', 'paren(1)', 'colon:x', 'dot.in.name', 'trailing.', 'x.fasta.bak', '-dash', 'tab\tname', 'a=b']
+NAME_STEMS = ['plain', 'with space', 'comma,name', 'dq"uote', "sq'uote", 'ünï', '日本', 'semi;colon', 'paren(1)', 'colon:x', 'dot.in.name', 'trailing.', 'x.fasta.bak', '-dash', 'tab\tname', 'a=b', 'None', 'true', '1e5', '007', 'NaN']
 ID_POOL = ['id plain', 'id, comma', 'id "dq"', "id 'sq'", 'id\nnewline', 'id\ttab', ' id lead', 'ïd', '標本', 'id;semi', 'id(paren)', 'id:colon', '', '#id']
 
 
